@@ -60,7 +60,7 @@ def section(rep, n, m, mutate=None, what=('post', 'white', 'info', 'psd')):
     S.C.dom += _leading_minors_pos(R) + _psd(P)
     for nm in ('x', 'z', 'H', 'P', 'R'):
         pass
-    meta = {'check': 'correct', 'params': {'n': n, 'm': m}}
+    meta = {'check': 'correct', 'params': {'n': n, 'm': m}, 'tol': 1e-13}      # rational identities: any non-zero true residual is a candidate
     from ..symlinalg import PoisonUse
     try:
         x1, P1, inn = KF.correct(x, P, z, H, R)
@@ -437,23 +437,35 @@ def replay(spec):
         P = A_ @ A_.T + 0.5 * np.eye(n)
         B_ = rng.randn(m, m)
         R = B_ @ B_.T + 0.5 * np.eye(m)
-    args = [a.copy() for a in (x, P, z, H, R)]
-    x1, P1, inn = kalman.correct(*args)
     fails = []
-    if any(not np.array_equal(a, b) for a, b in zip(args, (x, P, z, H, R))):
-        fails.append('inputs modified')
-    S = H @ P @ H.T + R
-    K = P @ H.T @ np.linalg.inv(S)
+    x_, P_, z_, R_ = x, P, z, R
+    # the identities are scale-free (x, z -> s x, s z; P, R -> s^2 P, s^2 R; H unchanged): the property
+    # covers noise levels from 1e-8 to 1e8, so they are checked at several scales - an ABSOLUTE
+    # constant somewhere in the computation shows at the small ones
+    for sc in (1.0, 1e-3, 1e-4, 1e3):
+        x, P, z, R = sc * x_, sc * sc * P_, sc * z_, sc * sc * R_
+        args = [a.copy() for a in (x, P, z, H, R)]
+        x1, P1, inn = kalman.correct(*args)
+        if any(not np.array_equal(a, b) for a, b in zip(args, (x, P, z, H, R))):
+            fails.append('inputs modified')
+        S = H @ P @ H.T + R
+        K = P @ H.T @ np.linalg.inv(S)
+        tol = 1e-9 * sc * sc * max(1.0, np.abs(P_).max())
+        tolx = 1e-9 * sc * max(1.0, np.abs(x_).max(), np.abs(z_).max())
+        at = '' if sc == 1.0 else ' (problem scaled by %g: P, R by %g)' % (sc, sc * sc)
+        if not np.allclose(P1, P - K @ H @ P, atol=tol, rtol=0):
+            fails.append('posterior covariance != P - P H^T S^-1 H P (max diff %.3g)%s' % (np.abs(P1 - (P - K @ H @ P)).max(), at))
+        if not np.allclose(x1, x + K @ (z - H @ x), atol=tolx, rtol=0):
+            fails.append('posterior mean != x + K (z - H x) (max diff %.3g)%s' % (np.abs(x1 - (x + K @ (z - H @ x))).max(), at))
+        if not np.allclose(P1, P1.T, atol=tol, rtol=0):
+            fails.append('posterior covariance not symmetric' + at)
+        L = np.linalg.cholesky(S)
+        if not np.allclose(L @ inn, z - H @ x, atol=tolx, rtol=0):
+            fails.append('innovation is not the residual whitened by the lower Cholesky factor' + at)
+        if fails:
+            break
+    x, P, z, R = x_, P_, z_, R_
     tol = 1e-9 * max(1.0, np.abs(P).max())
-    if not np.allclose(P1, P - K @ H @ P, atol=tol):
-        fails.append('posterior covariance != P - P H^T S^-1 H P (max diff %.3g)' % np.abs(P1 - (P - K @ H @ P)).max())
-    if not np.allclose(x1, x + K @ (z - H @ x), atol=tol):
-        fails.append('posterior mean != x + K (z - H x)')
-    if not np.allclose(P1, P1.T, atol=tol):
-        fails.append('posterior covariance not symmetric')
-    L = np.linalg.cholesky(S)
-    if not np.allclose(L @ inn, z - H @ x, atol=tol):
-        fails.append('innovation is not the residual whitened by the lower Cholesky factor')
     if spec.get('check') == 'blocks' and m == 2:
         Rd = np.diag(np.diag(R))
         xj, Pj, _ = kalman.correct(x, P, z, H, Rd)
